@@ -72,7 +72,7 @@ structure Node (K : Type) where
   a1 : K
   a2 : K
   e : K
-deriving Repr, BEq
+deriving Repr, BEq, DecidableEq
 
 section fit
 variable [Add K] [Sub K] [Mul K] [Div K] [Neg K] [Zero K] [One K] [NatCast K] [IntCast K]
